@@ -5,7 +5,7 @@ From TV Require Import Base.Prelude Base.C09_Lib
   Spec.C09_Poly1305 Spec.C09_ChaCha Spec.C09_ChaChaPoly
   Base.C09_Oracle Gen.C09_KDF Model.C09_KeyCalc Spec.C09_KDF Spec.C09_KeyCalc
   Proofs.C09_Bits32 Proofs.C09_Poly1305 Proofs.C09_ChaCha Proofs.C09_ChaChaPoly Proofs.C09_KDF Proofs.C09_KeyCalc
-  Gen.C09_RC4 Gen.C09_AesModes Spec.C09_Modes Proofs.C09_Modes Gen.C09_GCM Proofs.C09_GCM Proofs.C09_CBC
+  Gen.C09_RC4 Gen.C09_AesModes Spec.C09_Modes Proofs.C09_Modes Gen.C09_GCM Proofs.C09_GCM Proofs.C09_CBC Proofs.C09_CTR
   Toy.C09_ToyOracle.
 Import ListNotations.
 Open Scope list_scope.
@@ -103,50 +103,39 @@ Example chachapoly_hyps_satisfiable :
 Proof. exact hyps_example. Qed.
 
 (* ---- (d) key derivation ---------------------------------------------------------- *)
-(* FULL STATEMENT (RFC 5869 2.3): for every L <= 255*HashLen, HKDF_expand returns the RFC's OKM:
-     forall Orc alg prk info L okm, hkdf_expand_rfc Orc alg prk info L = Some okm ->
-                                    HKDF_expand Orc prk info L alg = Ok okm.
-   It is FALSE of the code as regenerated from tlslite/utils/cryptomath.py: *)
-Theorem hkdf_expand_eq_rfc_refuted :
-  exists Orc prk info okm,
-    hkdf_expand_rfc Orc "sha256" prk info 8160 = Some okm /\ HKDF_expand Orc prk info 8160 "sha256" = Err ValueError.
-Proof. exact hkdf_refuted_sha256_8160. Qed.
-
-(* ... in fact for every oracle, hash and input the whole last block of lengths fails *)
-Theorem hkdf_expand_last_block_refuted : forall Orc alg prk info L hl,
-  digest_size alg = Some hl -> 254 * hl < L <= 255 * hl ->
-  (exists okm, hkdf_expand_rfc Orc alg prk info L = Some okm) /\ HKDF_expand Orc prk info L alg = Err ValueError.
-Proof. exact hkdf_expand_refuted_all. Qed.
-
-(* the proved part: everything up to 254*HashLen (missing: 254*HashLen < L <= 255*HashLen) *)
-Theorem hkdf_expand_eq_rfc_partial : forall Orc alg prk info L hl okm,
-  digest_size alg = Some hl -> L <= 254 * hl ->
+(* RFC 5869 2.3, FULL statement: wherever the RFC defines HKDF-Expand (0 <= L <= 255*HashLen, known hash) the code,
+   as regenerated from tlslite/utils/cryptomath.py, returns exactly the RFC's OKM.  (Before the repair of /repo by
+   "fix: HKDF_expand must not compute one block too many" this was refuted for 254*HashLen < L <= 255*HashLen.) *)
+Theorem hkdf_expand_eq_rfc : forall Orc alg prk info L okm,
   hkdf_expand_rfc Orc alg prk info L = Some okm -> HKDF_expand Orc prk info L alg = Ok okm.
-Proof. exact hkdf_expand_partial. Qed.
+Proof. exact hkdf_expand_full. Qed.
 
-(* HKDF-Expand-Label (RFC 8446 7.1 HkdfLabel layout) and Derive-Secret; same missing last block *)
-Theorem hkdf_expand_label_eq_rfc_partial : forall Orc alg hl secret label context length okm,
-  digest_size alg = Some hl -> length <= 254 * hl ->
+(* and beyond the RFC's range it refuses *)
+Theorem hkdf_expand_refuses_beyond_rfc : forall Orc alg prk info L hl,
+  digest_size alg = Some hl -> 255 * hl < L ->
+  hkdf_expand_rfc Orc alg prk info L = None /\ HKDF_expand Orc prk info L alg = Err ValueError.
+Proof. exact hkdf_expand_beyond. Qed.
+
+(* HKDF-Expand-Label (RFC 8446 7.1 HkdfLabel layout), Derive-Secret and the TLS 1.3 traffic keys (7.3): full *)
+Theorem hkdf_expand_label_eq_rfc : forall Orc alg secret label context length okm,
   hkdf_expand_label_rfc Orc alg secret label context length = Some okm ->
   HKDF_expand_label Orc secret label context length alg = Ok okm.
-Proof. exact hkdf_expand_label_partial. Qed.
+Proof. exact hkdf_expand_label_full. Qed.
 
-Theorem hkdf_expand_label_eq_rfc_refuted : forall Orc alg hl secret label context length,
-  digest_size alg = Some hl -> 254 * hl < length <= 255 * hl -> length <= 65535 ->
-  zlen label + 6 <= 255 -> zlen context <= 255 ->
-  (exists okm, hkdf_expand_label_rfc Orc alg secret label context length = Some okm) /\
-  HKDF_expand_label Orc secret label context length alg = Err ValueError.
-Proof. exact hkdf_expand_label_refuted_all. Qed.
+Theorem hkdf_expand_label_refuses_rest : forall Orc alg hl secret label context length,
+  digest_size alg = Some hl ->
+  hkdf_expand_label_rfc Orc alg secret label context length = None ->
+  exists e, HKDF_expand_label Orc secret label context length alg = Err e.
+Proof. exact hkdf_expand_label_refuses. Qed.
 
-Theorem derive_secret_eq_rfc : forall Orc alg hl secret label messages okm, hash_ok Orc ->
+Theorem derive_secret_eq_rfc : forall Orc alg hl secret label messages okm,
   digest_size alg = Some hl ->
   derive_secret_rfc Orc alg secret label messages = Some okm ->
   derive_secret Orc secret label (Some messages) alg = Ok okm /\
   (messages = [] -> derive_secret Orc secret label None alg = Ok okm).
-Proof. exact derive_secret_partial. Qed.
+Proof. exact derive_secret_full. Qed.
 
 Theorem tls13_traffic_keys_eq_rfc : forall Orc (sha384 : bool) secret keyLen k iv,
-  keyLen <= 254 * 32 ->
   traffic_keys_rfc Orc (if sha384 then "sha384" else "sha256")%string secret keyLen = Some (k, iv) ->
   tls13_traffic_keys Orc secret keyLen sha384 = Ok (k, iv).
 Proof. exact tls13_traffic_keys_ok. Qed.
@@ -294,3 +283,14 @@ Proof. exact cbc_both_ok. Qed.
 Theorem cbc_refuses_partial_blocks : forall O st data, zlen data mod 16 <> 0 ->
   cbc_encrypt O st data = Err AssertionError /\ cbc_decrypt O st data = Err AssertionError.
 Proof. exact cbc_bad_length. Qed.
+
+(* one call of the generated Python_AES_CTR.encrypt on an object whose 16-byte counter block has just been set (how
+   AES-GCM and AES-CCM use it, and ctr_init with a 16-byte IV) = SP 800-38A 6.5 CTR with the standard incrementing
+   function; the object keeps the next counter block.  (Objects created with a shorter IV additionally raise OverflowError
+   when the counter part becomes all ones: not covered.) *)
+Theorem ctr_eq_spec : forall O key iv t0 m,
+  (forall b, List.length (bo_enc O key b) = 16%nat) -> (forall k b, all_bytes (bo_enc O k b) = true) ->
+  List.length t0 = 16%nat -> all_bytes m = true ->
+  ctr_encrypt O (mkAESCTR key iv 0 t0) m =
+  Ok (mkAESCTR key iv 0 (Nat.iter (Z.to_nat ((zlen m + 15) / 16)) ctr_inc t0), ctr_crypt_spec (bo_enc O key) 16 t0 m).
+Proof. exact ctr_encrypt_ok. Qed.
